@@ -598,6 +598,9 @@ class Process:
         """
         lowest_pid = _LOWEST_PID if _LOWEST_PID is not None else pids()[0]
         if self.pid == lowest_pid:
+            # The lowest PID has no parent, but this object may
+            # refer to a previous owner of that PID.
+            self._raise_if_pid_reused()
             return None
         ppid = self.ppid()
         if ppid is not None:
